@@ -211,7 +211,533 @@ Qed.
 
 Lemma rd_be_ok c i k : 0 <= i -> i + Z.of_nat k <= len c -> exists u, rd_be c i k = Ok u.
 Proof.
-  unfold rd_be. generalize 0 as acc. revert i. induction k as [|k IH]; intros i acc Hi Hk.
+  unfold rd_be. intros Hi. generalize 0 as acc. revert i Hi. induction k as [|k IH]; intros i Hi acc Hk; cbn [rd_be_go].
   - eexists; reflexivity.
   - rewrite idx_in by lia. cbv beta iota delta [bind]. apply IH; lia.
 Qed.
+
+(* ---- symbolic execution of the step functions ------------------------------------------------- *)
+Ltac hd_res t :=
+  lazymatch t with
+  | bind ?e _ => hd_res e
+  | idx ?c ?k => rewrite (idx_in c k) by lia
+  | slice ?c ?a ?b => rewrite (slice_in c a b) by lia
+  | rd_be ?c ?i ?k =>
+    let u := fresh "u" in let E := fresh "E" in
+    destruct (rd_be_ok c i k) as [u E]; [lia|cbn [Z.of_nat Pos.of_succ_nat Pos.succ]; lia|rewrite E]
+  | (if ?b then _ else _) => let E := fresh "E" in destruct b eqn:E
+  end.
+Ltac fend := solve [exact I | unfold fine, EInvalid, EMultiConn, EMultiTrans, EOther, EFuel; discriminate].
+Lemma bind_Ok {A B} (x : A) (f : A -> res B) : bind (Ok x) f = f x.
+Proof. reflexivity. Qed.
+Ltac bsimp := rewrite ?bind_Ok; cbv beta iota zeta.
+Ltac fstep := match goal with |- fine ?t => hd_res t end; bsimp.
+Ltac frun := repeat first [fend | fstep].
+
+Lemma wc2_v3_eq c i :
+  w16 (nz c (i + 5)) (nz c (i + 6)) + (w16 (nz c (i + 3)) (nz c (i + 4)) + (w16 (nz c (i + 1)) (nz c (i + 2)) + i + 8)) = wc2_n0 c i.
+Proof. unfold wc2_n0. lia. Qed.
+
+Lemma validate_step_fine c i n k p t : bytes c -> 0 <= i -> i < n -> n <= len c -> 0 < len c ->
+  (k = KWC2 -> i + 7 < n -> hsafe c n (wc2_n0 c i)) ->
+  fine (validate_step c i n k p t).
+Proof.
+  intros Hb Hi Hin Hn Hl Hw. byte_facts c i Hb.
+  destruct k; unfold validate_step; frun.
+  - (* WC2 headers *)
+    rewrite wc2_v3_eq. apply fine_bind; [|intros; exact I].
+    apply (wc2_hdrs_fine c i n Hb Hi Hn (wc2_n0 c i) (Hw eq_refl ltac:(lia)));
+      unfold wc2_n0, len in *; lia.
+  - (* DNS *)
+    apply fine_bind; [|intros; exact I]. apply dns_names_fine; try assumption; lia.
+Qed.
+
+Ltac hd_res2 t :=
+  lazymatch t with
+  | bind ?e _ => hd_res2 e
+  | tls_conn _ _ _ _ _ _ => unfold tls_conn
+  | _ => hd_res t
+  end.
+Ltac fstep2 := match goal with |- fine ?t => hd_res2 t end; bsimp.
+Ltac frun2 := repeat first [fend | fstep2].
+
+Ltac fin_wc2 c i n Hb Hi Hn Hw :=
+  rewrite wc2_v3_eq; apply fine_bind; [|intros; exact I];
+  apply (wc2_hdrs_fine c i n Hb Hi Hn (wc2_n0 c i) (Hw eq_refl ltac:(lia)));
+  unfold wc2_n0, len in *; lia.
+Ltac fin_dns := apply fine_bind; [|intros; exact I]; apply dns_names_fine; try assumption; lia.
+
+Lemma build_step_fine tlsok c i n tag k st : bytes c -> 0 <= i -> i < n -> n <= len c -> 0 < len c ->
+  (k = KWC2 -> i + 7 < n -> hsafe c n (wc2_n0 c i)) ->
+  fine (build_step tlsok c i n tag k st).
+Proof.
+  intros Hb Hi Hin Hn Hl Hw. byte_facts c i Hb. destruct st as [p z].
+  destruct k; unfold build_step; frun2; first [fin_wc2 c i n Hb Hi Hn Hw | fin_dns].
+Qed.
+
+Lemma json_step_fine c i n k : bytes c -> 0 <= i -> i < n -> n <= len c -> 0 < len c ->
+  (k = KWC2 -> i + 7 < n -> hsafe c n (wc2_n0 c i)) ->
+  fine (json_step c i n k).
+Proof.
+  intros Hb Hi Hin Hn Hl Hw. byte_facts c i Hb.
+  destruct k; unfold json_step; frun2; first [fin_wc2 c i n Hb Hi Hn Hw | fin_dns].
+Qed.
+
+(* ---- loops ------------------------------------------------------------------------------------- *)
+Definition fineP {A} (P : A -> Prop) (r : res A) : Prop :=
+  match r with Ok v => P v | Err e => e <> EFuel | Panic => False end.
+
+Lemma fineP_bind {A B} (Q : A -> Prop) (P : B -> Prop) (e : res A) (k : A -> res B) :
+  fineP Q e -> (forall x, Q x -> fineP P (k x)) -> fineP P (bind e k).
+Proof. destruct e; cbn; auto. Qed.
+Lemma fine_fineP {A} (r : res A) : fine r -> fineP (fun _ => True) r.
+Proof. destruct r; cbn; auto. Qed.
+Lemma fineP_fine {A} (P : A -> Prop) (r : res A) : fineP P r -> fine r.
+Proof. destruct r; cbn; auto. Qed.
+Lemma fineP_weaken {A} (P Q : A -> Prop) (r : res A) : (forall v, P v -> Q v) -> fineP P r -> fineP Q r.
+Proof. destruct r; cbn; auto. Qed.
+
+Definition is_sep (k : kind) : bool := match k with KSep => true | _ => false end.
+
+Lemma validate_loop_S f c i p t :
+  validate_loop (S f) c i p t =
+  (do r <- next c i;
+   let n := fixn c i r in
+   do _ <- idx c (n - 1);
+   do b <- idx c i;
+   if is_sep (kind_of b) then Ok n else
+   do pt <- validate_step c i n (kind_of b) p t;
+   if (0 <=? n) && (n <? len c) then validate_loop f c n (fst pt) (snd pt) else Ok n).
+Proof.
+  cbn [validate_loop]. destruct (next c i) as [r| |]; cbn [bind]; try reflexivity.
+  destruct (idx c (fixn c i r - 1)); cbn [bind]; try reflexivity.
+  destruct (idx c i) as [b| |]; cbn [bind]; try reflexivity.
+  destruct (kind_of b); cbn [is_sep]; try reflexivity;
+    match goal with |- bind ?e _ = bind ?e _ => destruct e as [[? ?]| |]; reflexivity end.
+Qed.
+
+Lemma build_loop_S tlsok f c i st :
+  build_loop tlsok (S f) c i st =
+  (do r <- next c i;
+   let n := fixn c i r in
+   do _ <- idx c (n - 1);
+   do b <- idx c i;
+   if is_sep (kind_of b) then Ok (st, n) else
+   do st' <- build_step tlsok c i n b (kind_of b) st;
+   if (0 <=? n) && (n <? len c) then build_loop tlsok f c n st' else Ok (st', n)).
+Proof.
+  cbn [build_loop]. destruct (next c i) as [r| |]; cbn [bind]; try reflexivity.
+  destruct (idx c (fixn c i r - 1)); cbn [bind]; try reflexivity.
+  destruct (idx c i) as [b| |]; cbn [bind]; try reflexivity.
+  destruct (kind_of b); cbn [is_sep]; reflexivity.
+Qed.
+
+Lemma json_loop_S f c i :
+  json_loop (S f) c i =
+  (do b <- idx c i;
+   if b =? 0 then Err EInvalid else
+   do r <- next c i;
+   let n := fixn c i r in
+   if is_sep (kind_of b) then
+     (if n =? len c then Ok tt else if (0 <=? n) && (n <? len c) then json_loop f c n else Ok tt)
+   else
+   do _ <- json_step c i n (kind_of b);
+   if (0 <=? n) && (n <? len c) then json_loop f c n else Ok tt).
+Proof.
+  cbn [json_loop]. destruct (idx c i) as [b| |]; cbn [bind]; try reflexivity.
+  destruct (b =? 0); try reflexivity.
+  destruct (next c i) as [r| |]; cbn [bind]; try reflexivity.
+  destruct (kind_of b); cbn [is_sep]; reflexivity.
+Qed.
+
+Section Loops.
+  Variable c : list Z.
+  Hypothesis Hb : bytes c.
+
+  (* what every loop body starts with: the stride, reset by the caller *)
+  Lemma stride i : 0 <= i < len c ->
+    exists r, next c i = Ok r /\ i < fixn c i r <= len c /\
+      (kind_of (nz c i) = KWC2 -> i + 7 < fixn c i r -> hsafe c (fixn c i r) (wc2_n0 c i)).
+  Proof.
+    intros Hi. destruct (next_ok c i Hb Hi) as [r [Hr Hp]]. exists r. split; [exact Hr|].
+    pose proof (fixn_range c i r Hi Hp). split; [assumption|].
+    intros K H7. apply next_wc2_hsafe; try assumption; lia.
+  Qed.
+
+  Lemma validate_loop_fine : forall fuel i p t, 0 <= i < len c -> len c - i <= Z.of_nat fuel ->
+    fineP (fun n => i < n <= len c) (validate_loop fuel c i p t).
+  Proof.
+    induction fuel as [|f IH]; intros i p t Hi Hf; [lia|].
+    rewrite validate_loop_S.
+    destruct (stride i Hi) as [r [-> [Hn Hw]]]. rewrite bind_Ok. cbv zeta.
+    set (n := fixn c i r) in *.
+    rewrite !idx_in by lia. rewrite !bind_Ok.
+    destruct (is_sep (kind_of (nz c i))); [cbn; lia|].
+    eapply fineP_bind.
+    - apply fine_fineP. apply validate_step_fine; try assumption; lia.
+    - intros [p' t'] _. cbn [fst snd].
+      destruct ((0 <=? n) && (n <? len c)) eqn:E; [|cbn; lia].
+      eapply fineP_weaken; [|apply IH; lia]. cbv beta. lia.
+  Qed.
+
+  Lemma build_loop_fine tlsok : forall fuel i st, 0 <= i < len c -> len c - i <= Z.of_nat fuel ->
+    fineP (fun r => i < snd r <= len c) (build_loop tlsok fuel c i st).
+  Proof.
+    induction fuel as [|f IH]; intros i st Hi Hf; [lia|].
+    rewrite build_loop_S.
+    destruct (stride i Hi) as [r [-> [Hn Hw]]]. rewrite bind_Ok. cbv zeta.
+    set (n := fixn c i r) in *.
+    rewrite !idx_in by lia. rewrite !bind_Ok.
+    destruct (is_sep (kind_of (nz c i))); [cbn; lia|].
+    eapply fineP_bind.
+    - apply fine_fineP. apply build_step_fine; try assumption; lia.
+    - intros st' _.
+      destruct ((0 <=? n) && (n <? len c)) eqn:E; [|cbn; lia].
+      eapply fineP_weaken; [|apply IH; lia]. cbv beta. lia.
+  Qed.
+
+  Lemma json_loop_fine : forall fuel i, 0 <= i < len c -> len c - i <= Z.of_nat fuel ->
+    fine (json_loop fuel c i).
+  Proof.
+    induction fuel as [|f IH]; intros i Hi Hf; [lia|].
+    rewrite json_loop_S. rewrite idx_in by lia. rewrite bind_Ok.
+    destruct (nz c i =? 0); [cbn; discriminate|].
+    destruct (stride i Hi) as [r [-> [Hn Hw]]]. rewrite bind_Ok. cbv zeta.
+    set (n := fixn c i r) in *.
+    destruct (is_sep (kind_of (nz c i))).
+    - destruct (n =? len c); [exact I|].
+      destruct ((0 <=? n) && (n <? len c)) eqn:E; [|exact I]. apply IH; lia.
+    - apply fine_bind.
+      + apply json_step_fine; try assumption; lia.
+      + intros _ _. destruct ((0 <=? n) && (n <? len c)) eqn:E; [|exact I]. apply IH; lia.
+  Qed.
+
+  Lemma validate_group_fine x : 0 <= x < len c -> fineP (fun n => x < n <= len c) (validate_group c x).
+  Proof.
+    intros Hx. unfold validate_group. replace (0 <? len c) with true by lia.
+    apply validate_loop_fine; [lia|]. unfold len. lia.
+  Qed.
+
+  Lemma validate_top_fine : forall fuel i, 0 <= i -> len c - i < Z.of_nat fuel -> 0 < Z.of_nat fuel ->
+    fine (validate_top fuel c i).
+  Proof.
+    induction fuel as [|f IH]; intros i Hi Hf Hf0; [lia|]. cbn [validate_top].
+    destruct (i <? len c) eqn:E; [|exact I].
+    eapply fineP_fine. eapply fineP_bind; [apply validate_group_fine; lia|].
+    intros n Hn. cbv beta in Hn. apply fine_fineP. apply fine_bind.
+    - destruct (n - i =? 1); [rewrite idx_in by lia|]; exact I.
+    - intros _ _. apply IH; lia.
+  Qed.
+
+  Lemma validate_fine : fine (validate c).
+  Proof.
+    unfold validate. destruct (len c =? 0) eqn:E; [exact I|].
+    apply validate_top_fine; unfold len in *; lia.
+  Qed.
+
+  Lemma build_group_fine tlsok x : 0 <= x < len c ->
+    fineP (fun r => x < snd r <= len c) (build_group tlsok c x).
+  Proof.
+    intros Hx. unfold build_group. replace (0 <? len c) with true by lia.
+    apply build_loop_fine; [lia|]. unfold len. lia.
+  Qed.
+
+  Lemma build_top_fine tlsok : forall fuel i e g, 0 <= i -> len c - i < Z.of_nat fuel -> 0 < Z.of_nat fuel ->
+    fine (build_top tlsok fuel c i e g).
+  Proof.
+    induction fuel as [|f IH]; intros i e g Hi Hf Hf0; [lia|]. cbn [build_top].
+    destruct (i <? len c) eqn:E; [|exact I].
+    eapply fineP_fine. eapply fineP_bind; [apply build_group_fine; lia|].
+    intros [[p s] n] Hn. cbn [snd] in Hn. apply fine_fineP. apply fine_bind.
+    - destruct (n - i =? 1); [rewrite idx_in by lia; rewrite bind_Ok|]; exact I.
+    - intros skip _. destruct skip; apply IH; lia.
+  Qed.
+
+  Lemma build_fine tlsok : fine (build tlsok c).
+  Proof.
+    unfold build. destruct (len c =? 0) eqn:E; [exact I|].
+    apply fine_bind.
+    - apply build_top_fine; unfold len in *; lia.
+    - intros [e g] _. destruct e as [|p [|q e]]; exact I.
+  Qed.
+
+  Lemma json_fine : fine (json_skel c).
+  Proof.
+    unfold json_skel. destruct (0 <? len c) eqn:E; [|exact I].
+    apply json_loop_fine; unfold len in *; lia.
+  Qed.
+End Loops.
+
+(* ---- Groups / Group / String -------------------------------------------------------------------- *)
+Section Walks.
+  Variable c : list Z.
+  Hypothesis Hb : bytes c.
+
+  (* fuel needed from offset i: the offsets still ahead, plus the final test *)
+  Definition ahead (i : Z) : Z := if (0 <=? i) && (i <? len c) then len c - i + 1 else 1.
+
+  Lemma ahead_next i r : 0 <= i < len c -> r = -1 \/ i < r -> ahead r < ahead i.
+  Proof. intros Hi Hr. unfold ahead. replace ((0 <=? i) && (i <? len c)) with true by lia.
+    destruct ((0 <=? r) && (r <? len c)) eqn:E; lia. Qed.
+
+  Lemma groups_loop_fine : forall fuel i n, ahead i <= Z.of_nat fuel -> fine (groups_loop fuel c i n).
+  Proof.
+    induction fuel as [|f IH]; intros i n Hf.
+    - unfold ahead in Hf. destruct ((0 <=? i) && (i <? len c)) eqn:E; lia.
+    - cbn [groups_loop]. destruct ((0 <=? i) && (i <? len c)) eqn:E; [|exact I].
+      rewrite idx_in by lia. rewrite bind_Ok.
+      destruct (next_ok c i Hb ltac:(lia)) as [r [-> Hr]]. rewrite bind_Ok.
+      apply IH. pose proof (ahead_next i r ltac:(lia) Hr). lia.
+  Qed.
+
+  Lemma groups_fine : fine (groups c).
+  Proof.
+    unfold groups. destruct (len c =? 0) eqn:E; [exact I|].
+    apply groups_loop_fine. unfold ahead, len in *. replace ((0 <=? 0) && (0 <? Z.of_nat (length c))) with true by lia. lia.
+  Qed.
+
+  Lemma group_loop_fine p : forall fuel e l s, ahead e <= Z.of_nat fuel ->
+    0 <= s <= len c -> (0 <= e < len c -> s <= e) -> fine (group_loop fuel c p e l s).
+  Proof.
+    induction fuel as [|f IH]; intros e l s Hf Hs Hse.
+    - unfold ahead in Hf. destruct ((0 <=? e) && (e <? len c)) eqn:E; lia.
+    - cbn [group_loop]. destruct ((0 <=? e) && (e <? len c)) eqn:E.
+      + rewrite idx_in by lia. rewrite bind_Ok.
+        destruct (next_ok c e Hb ltac:(lia)) as [r [Hn Hr]].
+        pose proof (ahead_next e r ltac:(lia) Hr).
+        destruct (nz c e =? Separator).
+        * destruct (e =? 0).
+          { rewrite Hn, bind_Ok. apply IH; lia. }
+          destruct ((p <=? 0) && (l =? 0)).
+          { rewrite slice_in by lia. exact I. }
+          destruct (p =? l).
+          { rewrite slice_in by lia. exact I. }
+          rewrite Hn, bind_Ok. apply IH; lia.
+        * rewrite Hn, bind_Ok. apply IH; lia.
+      + destruct ((0 <? l) && (0 <? s)).
+        { rewrite slice_in by lia. exact I. }
+        destruct ((p <=? 0) && (l =? 0)); exact I.
+  Qed.
+
+  Lemma group_fine p : fine (group c p).
+  Proof.
+    unfold group. destruct (len c =? 0) eqn:E; [exact I|]. destruct (p =? -1); [exact I|].
+    apply group_loop_fine; [|unfold len; lia|lia].
+    unfold ahead, len in *. replace ((0 <=? 0) && (0 <? Z.of_nat (length c))) with true by lia. lia.
+  Qed.
+
+  Lemma string_loop_fine : forall fuel i, ahead i <= Z.of_nat fuel -> fine (string_loop fuel c i).
+  Proof.
+    induction fuel as [|f IH]; intros i Hf.
+    - unfold ahead in Hf. destruct ((0 <=? i) && (i <? len c)) eqn:E; lia.
+    - cbn [string_loop]. destruct ((0 <=? i) && (i <? len c)) eqn:E; [|exact I].
+      destruct (next_ok c i Hb ltac:(lia)) as [r [-> Hr]]. rewrite bind_Ok.
+      destruct ((r <? 0) || (len c <=? r)) eqn:E2; [exact I|].
+      rewrite idx_in by lia. rewrite bind_Ok.
+      apply IH. pose proof (ahead_next i r ltac:(lia) Hr). lia.
+  Qed.
+
+  Lemma string_fine : fine (string_skel c).
+  Proof.
+    unfold string_skel. destruct (len c =? 0) eqn:E; [exact I|]. pose proof (len_nonneg c).
+    rewrite idx_in by lia. rewrite bind_Ok. destruct (nz c 0 =? 0); [exact I|].
+    apply string_loop_fine. unfold ahead, len in *. replace ((0 <=? 0) && (0 <? Z.of_nat (length c))) with true by lia. lia.
+  Qed.
+
+  Lemma marshal_fine tlsok : fine (marshal tlsok c).
+  Proof.
+    unfold marshal. apply fine_bind; [apply build_fine; exact Hb|].
+    intros [g e] _. destruct e; [cbn; discriminate|exact I].
+  Qed.
+End Walks.
+
+(* ---- validate accepts iff build accepts ------------------------------------------------------------ *)
+Lemma len_take_drop {A} (c : list A) a k : 0 <= a -> 0 <= k -> a + k <= len c -> len (take k (drop a c)) = k.
+Proof.
+  intros Ha Hk H. unfold len, take, drop in *. rewrite firstn_length, skipn_length. lia.
+Qed.
+
+Lemma tls_conn_true mu ver ca pem key : exists it, tls_conn true mu ver ca pem key = Ok it.
+Proof. unfold tls_conn. cbn [negb]. rewrite andb_false_r. eexists; reflexivity. Qed.
+
+Definition sim_step (v : res (bool * bool)) (b : res bstate) : Prop :=
+  match v, b with
+  | Ok pt, Ok st => has_conn (fst st) = fst pt /\ has_trans (fst st) = snd pt
+  | Err _, Err _ => True
+  | _, _ => False
+  end.
+
+Ltac hd_sim t :=
+  lazymatch t with
+  | bind ?e _ => hd_sim e
+  | idx ?c ?k => rewrite (idx_in c k) by lia
+  | slice ?c ?a ?b => rewrite (slice_in c a b) by lia
+  | rd_be ?c ?i ?k =>
+    let u := fresh "u" in let E := fresh "E" in
+    destruct (rd_be_ok c i k) as [u E]; [lia|cbn [Z.of_nat Pos.of_succ_nat Pos.succ]; lia|rewrite E]
+  | tls_conn true ?mu ?ver ?ca ?pem ?key =>
+    let it := fresh "it" in let E := fresh "E" in destruct (tls_conn_true mu ver ca pem key) as [it E]; rewrite E
+  | (if ?b then _ else _) => let E := fresh "E" in destruct b eqn:E; try (exfalso; lia)
+  end.
+Ltac sstep :=
+  match goal with |- sim_step ?a ?b => first [hd_sim a | hd_sim b] end;
+  bsimp; rewrite ?len_take_drop by lia.
+Ltac send := solve [exact I | split; reflexivity].
+Ltac srun := repeat first [send | sstep].
+
+Lemma step_sim c i n tag pf z : bytes c -> 0 <= i -> i < n -> n <= len c -> 0 < len c ->
+  (kind_of tag = KWC2 -> i + 7 < n -> hsafe c n (wc2_n0 c i)) ->
+  sim_step (validate_step c i n (kind_of tag) (has_conn pf) (has_trans pf))
+           (build_step true c i n tag (kind_of tag) (pf, z)).
+Proof.
+  intros Hb Hi Hin Hn Hl Hw. byte_facts c i Hb.
+  destruct (kind_of tag) eqn:K; unfold validate_step, build_step; srun.
+  all: try (rewrite ?wc2_v3_eq;
+    match goal with |- context [wc2_hdrs ?f ?c ?i ?n ?v ?q ?j] =>
+      let Hf := fresh "Hf" in
+      assert (Hf : fine (wc2_hdrs f c i n v q j))
+        by (apply (wc2_hdrs_fine c i n Hb Hi Hn (wc2_n0 c i) (Hw eq_refl ltac:(lia))); unfold wc2_n0, len in *; lia);
+      destruct (wc2_hdrs f c i n v q j); cbn [bind]; [split; reflexivity|exact I|destruct Hf]
+    end).
+  all: try (
+    match goal with |- context [dns_names ?x ?c ?i ?n ?v ?e] =>
+      let Hf := fresh "Hf" in
+      assert (Hf : fine (dns_names x c i n v e)) by (apply dns_names_fine; try assumption; lia);
+      destruct (dns_names x c i n v e); cbn [bind]; [split; reflexivity|exact I|destruct Hf]
+    end).
+Qed.
+
+Definition sim_loop (v : res Z) (b : res (bstate * Z)) : Prop :=
+  match v, b with Ok n, Ok r => n = snd r | Err _, Err _ => True | _, _ => False end.
+Definition sim_top {A B} (v : res A) (b : res B) : Prop :=
+  match v, b with Ok _, Ok _ => True | Err _, Err _ => True | _, _ => False end.
+
+Section Sim.
+  Variable c : list Z.
+  Hypothesis Hb : bytes c.
+
+  Lemma loop_sim : forall fuel i pf z, 0 <= i < len c ->
+    sim_loop (validate_loop fuel c i (has_conn pf) (has_trans pf)) (build_loop true fuel c i (pf, z)).
+  Proof.
+    induction fuel as [|f IH]; intros i pf z Hi; [exact I|].
+    rewrite validate_loop_S, build_loop_S.
+    destruct (stride c Hb i Hi) as [r [-> [Hn Hw]]]. rewrite !bind_Ok. cbv zeta.
+    set (n := fixn c i r) in *.
+    rewrite !idx_in by lia. rewrite !bind_Ok.
+    destruct (is_sep (kind_of (nz c i))); [reflexivity|].
+    pose proof (step_sim c i n (nz c i) pf z Hb ltac:(lia) ltac:(lia) ltac:(lia) ltac:(lia) Hw) as HS.
+    destruct (validate_step c i n (kind_of (nz c i)) (has_conn pf) (has_trans pf)) as [[p' t']| |];
+      destruct (build_step true c i n (nz c i) (kind_of (nz c i)) (pf, z)) as [[pf' z']| |];
+      cbn [sim_step fst snd] in HS; try contradiction; cbn [bind fst snd]; [|exact I].
+    destruct HS as [<- <-].
+    destruct ((0 <=? n) && (n <? len c)) eqn:E; [|reflexivity].
+    apply IH. lia.
+  Qed.
+
+  Lemma top_sim : forall fuel i e g, 0 <= i -> sim_top (validate_top fuel c i) (build_top true fuel c i e g).
+  Proof.
+    induction fuel as [|f IH]; intros i e g Hi; [exact I|]. cbn [validate_top build_top].
+    destruct (i <? len c) eqn:E; [|exact I].
+    pose proof (validate_group_fine c Hb i ltac:(lia)) as F.
+    unfold validate_group, build_group in *. replace (0 <? len c) with true in * by lia.
+    pose proof (loop_sim (length c) i prof0 0 ltac:(lia)) as HS.
+    change (has_conn prof0) with false in HS. change (has_trans prof0) with false in HS.
+    destruct (validate_loop (length c) c i false false) as [n| |];
+      destruct (build_loop true (length c) c i (prof0, 0)) as [[[p s] n']| |];
+      cbn [sim_loop snd] in HS; try contradiction; cbn [bind]; [|exact I].
+    subst n'. cbn [fineP] in F.
+    destruct (n - i =? 1).
+    - rewrite !idx_in by lia. rewrite !bind_Ok.
+      destruct (nz c i =? Separator); apply IH; lia.
+    - rewrite !bind_Ok. apply IH; lia.
+  Qed.
+
+  Lemma validate_iff_build : validate c = Ok tt <-> exists r, build true c = Ok r.
+  Proof.
+    unfold validate, build. destruct (len c =? 0) eqn:E.
+    { split; [eexists; reflexivity|reflexivity]. }
+    pose proof (top_sim (S (length c)) 0 [] 0 ltac:(lia)) as HS.
+    destruct (validate_top (S (length c)) c 0) as [[]| |];
+      destruct (build_top true (S (length c)) c 0 [] 0) as [[es g]| |]; cbn [sim_top] in HS; try contradiction; cbn [bind].
+    - split; [intros _|reflexivity]. destruct es as [|p [|q es]]; eexists; reflexivity.
+    - split; [discriminate|intros [r Hr]; discriminate].
+  Qed.
+End Sim.
+
+(* ---- the statements used by Props/C09.v -------------------------------------------------------------- *)
+Lemma fine_spec {A} (r : res A) : fine r <-> r <> Panic /\ r <> Err EFuel.
+Proof.
+  destruct r; cbn; split.
+  - intros _. split; discriminate.
+  - intros _. exact I.
+  - intros H. split; [discriminate|]. intros [= E]. exact (H E).
+  - intros [_ H] E. apply H. rewrite E. reflexivity.
+  - intros [].
+  - intros [H _]. apply H. reflexivity.
+Qed.
+
+Definition returns {A} (r : res A) : Prop := r <> Panic /\ r <> Err EFuel.
+
+Lemma next_total c i : bytes c -> 0 <= i < len c -> exists n, next c i = Ok n.
+Proof. intros Hb Hi. destruct (next_ok c i Hb Hi) as [n [H _]]. eauto. Qed.
+Lemma next_progress c i n : bytes c -> 0 <= i < len c -> next c i = Ok n -> n = -1 \/ i < n.
+Proof. intros Hb Hi H. destruct (next_ok c i Hb Hi) as [n' [H' P]]. rewrite H in H'. injection H' as <-. exact P. Qed.
+Lemma stride_progress c i n : bytes c -> 0 <= i < len c -> next c i = Ok n -> i < fixn c i n <= len c.
+Proof. intros Hb Hi H. apply fixn_range; [exact Hi|]. eapply next_progress; eauto. Qed.
+
+Lemma validate_returns c : bytes c -> returns (validate c).
+Proof. intros H. apply fine_spec. apply validate_fine. exact H. Qed.
+Lemma build_returns tlsok c : bytes c -> returns (build tlsok c).
+Proof. intros H. apply fine_spec. apply build_fine. exact H. Qed.
+Lemma groups_returns c : bytes c -> returns (groups c).
+Proof. intros H. apply fine_spec. apply groups_fine. exact H. Qed.
+Lemma groups_loop_ok c : bytes c -> forall fuel i n, ahead c i <= Z.of_nat fuel -> exists m, groups_loop fuel c i n = Ok m.
+Proof.
+  intros Hb. induction fuel as [|f IH]; intros i n Hf.
+  - unfold ahead in Hf. destruct ((0 <=? i) && (i <? len c)) eqn:E; lia.
+  - cbn [groups_loop]. destruct ((0 <=? i) && (i <? len c)) eqn:E; [|eauto].
+    rewrite idx_in by lia. rewrite bind_Ok.
+    destruct (next_ok c i Hb ltac:(lia)) as [r [-> Hr]]. rewrite bind_Ok.
+    apply IH. pose proof (ahead_next c i r ltac:(lia) Hr). lia.
+Qed.
+Lemma groups_is_ok c : bytes c -> exists n, groups c = Ok n.
+Proof.
+  intros Hb. unfold groups. destruct (len c =? 0) eqn:E; [eauto|].
+  apply groups_loop_ok; [exact Hb|].
+  unfold ahead, len in *. replace ((0 <=? 0) && (0 <? Z.of_nat (length c))) with true by lia. lia.
+Qed.
+
+Lemma group_loop_ok c p : bytes c -> forall fuel e l s, ahead c e <= Z.of_nat fuel ->
+  0 <= s <= len c -> (0 <= e < len c -> s <= e) -> exists g, group_loop fuel c p e l s = Ok g.
+Proof.
+  intros Hb. induction fuel as [|f IH]; intros e l s Hf Hs Hse.
+  - unfold ahead in Hf. destruct ((0 <=? e) && (e <? len c)) eqn:E; lia.
+  - cbn [group_loop]. destruct ((0 <=? e) && (e <? len c)) eqn:E.
+    + rewrite idx_in by lia. rewrite bind_Ok.
+      destruct (next_ok c e Hb ltac:(lia)) as [r [Hn Hr]].
+      pose proof (ahead_next c e r ltac:(lia) Hr).
+      destruct (nz c e =? Separator).
+      * destruct (e =? 0).
+        { rewrite Hn, bind_Ok. apply IH; lia. }
+        destruct ((p <=? 0) && (l =? 0)).
+        { rewrite slice_in by lia. eauto. }
+        destruct (p =? l).
+        { rewrite slice_in by lia. eauto. }
+        rewrite Hn, bind_Ok. apply IH; lia.
+      * rewrite Hn, bind_Ok. apply IH; lia.
+    + destruct ((0 <? l) && (0 <? s)).
+      { rewrite slice_in by lia. eauto. }
+      destruct ((p <=? 0) && (l =? 0)); eauto.
+Qed.
+Lemma group_is_ok c p : bytes c -> exists g, group c p = Ok g.
+Proof.
+  intros Hb. unfold group. destruct (len c =? 0) eqn:E; [eauto|]. destruct (p =? -1); [eauto|].
+  apply group_loop_ok; [exact Hb| |unfold len; lia|lia].
+  unfold ahead, len in *. replace ((0 <=? 0) && (0 <? Z.of_nat (length c))) with true by lia. lia.
+Qed.
+Lemma string_returns c : bytes c -> returns (string_skel c).
+Proof. intros H. apply fine_spec. apply string_fine. exact H. Qed.
+Lemma json_returns c : bytes c -> returns (json_skel c).
+Proof. intros H. apply fine_spec. apply json_fine. exact H. Qed.
+Lemma marshal_returns tlsok c : bytes c -> returns (marshal tlsok c).
+Proof. intros H. apply fine_spec. apply marshal_fine. exact H. Qed.
